@@ -110,7 +110,25 @@ fn main() {
         ("-a * b", vec!["a", "b"], mul(Exp::UnOp(UnOp::Neg, b(v("a"))), v("b"))),
         ("not a and b", vec!["a", "b"], Exp::And(vec![Exp::Not(b(v("a"))), v("b")])),
         ("a xor b or c and d", vec!["a", "b", "c", "d"], Exp::Or(vec![Exp::Xor(b(v("a")), b(v("b"))), Exp::And(vec![v("c"), v("d")])])),
+        // and binds tighter than xor, xor tighter than or: every adjacent pair, both orders
+        ("a xor b and c", vec!["a", "b", "c"], Exp::Xor(b(v("a")), b(Exp::And(vec![v("b"), v("c")])))),
+        ("a and b xor c", vec!["a", "b", "c"], Exp::Xor(b(Exp::And(vec![v("a"), v("b")])), b(v("c")))),
+        ("a && b xor c", vec!["a", "b", "c"], Exp::Xor(b(Exp::And(vec![v("a"), v("b")])), b(v("c")))),
+        ("a or b xor c", vec!["a", "b", "c"], Exp::Or(vec![v("a"), Exp::Xor(b(v("b")), b(v("c")))])),
+        ("a xor b || c", vec!["a", "b", "c"], Exp::Or(vec![Exp::Xor(b(v("a")), b(v("b"))), v("c")])),
+        ("a / 2 * 4", vec!["a"], mul(bin(BinOp::Div, v("a"), nmb(2.0)), nmb(4.0))),
+        ("12 / 2 * a", vec!["a"], mul(bin(BinOp::Div, nmb(12.0), nmb(2.0)), v("a"))),
+        ("a * 4 / 2", vec!["a"], bin(BinOp::Div, mul(v("a"), nmb(4.0)), nmb(2.0))),
     ];
+    // a number written directly against an identifier is an implicit product whatever the identifier starts with
+    // (there is no exponent notation in the language: `2e1` is 2 * e1)
+    let mut owned0: Vec<(String, Vec<String>, Exp)> = Vec::new();
+    for id in ["e1", "E2", "e", "e_1", "ex", "e10", "E", "f1", "d2", "x1", "inf", "e1e2"] {
+        for (t, val) in [("2", 2.0), ("2.5", 2.5), ("10", 10.0), ("0.5", 0.5)] {
+            owned0.push((format!("{t}{id}"), vec![id.to_string()], mul(nmb(val), v(id))));
+            owned0.push((format!("b + {t}{id}"), vec![id.to_string(), "b".into()], bin(BinOp::Add, v("b"), mul(nmb(val), v(id)))));
+        }
+    }
     // identifiers that merely start with a keyword: followed by a letter, a digit or an underscore they are one name
     let mut owned: Vec<(String, Vec<String>, Exp)> = Vec::new();
     for kw in ["and", "or", "not", "xor", "implies", "iff", "true", "false", "in", "as", "for", "min", "max", "where", "define", "let", "solve"] {
@@ -120,7 +138,7 @@ fn main() {
             owned.push((format!("b and not {id}"), vec![id.clone(), "b".into()], Exp::And(vec![v("b"), Exp::Not(b(v(&id)))])));
         }
     }
-    for (text, names, expect) in owned.iter() {
+    for (text, names, expect) in owned0.iter().chain(owned.iter()) {
         rep.count("sentences.checked");
         match compile_objective(text, names) {
             Ok(e) => if !exp_eq(&e, expect) { rep.fail(json!({"prop":"C09","kind":"documented-grouping-not-produced","class":"unclassified","input":text,"compiled":e.to_string(),"expected":expect.to_string()})); },
